@@ -66,7 +66,9 @@ RULE = (
     "seeded random annotation collections (bcv.gen.ser): 0..4 genes (coding / non-coding, 1..3 isoforms, programmed frameshifts), 0..3 "
     "feature collections, 0..2 variant collections (SNV / MNV / insertion / padded and unpadded deletion), empty bounded collections; every "
     "serialised field populated or None at random; guids computed / explicit / mixed; qualifier values str / int / bool / float with "
-    "look-alikes (1, '1', 1.0, True, 'True'), duplicates, unicode keys and values; parent none / chromosome with or without sequence / "
+    "look-alikes (1, '1', 1.0, True, 'True'), duplicates, unicode keys and values, and >= 3-member twin families that collide under "
+    "non-injective sort keys (case / casefold, strip, NFC-NFD-NFKC, numeric value, prefixes) in qualifier value sets, feature types and "
+    "sibling identifiers; parent none / chromosome with or without sequence / "
     "plus- and minus-strand chunk, four alphabets.  Cross-process: the same specs rebuilt in child interpreters under a PYTHONHASHSEED "
     "sweep (quick 8, thorough 64 values) with reshuffled insertion orders.  Sensitivity: every admissible single +-1 coordinate change, "
     "strand flip, frame change and identifier change of a spec, sampled.  A case signature is (kind, shape, parent mode, alphabet, guid "
@@ -159,8 +161,8 @@ def cases(spec, ctx):
     # exhaustive small scope: every insertion order of 4 qualifier keys (24) x value lists forwards / backwards, every order of 4 feature types
     for k in range(sc["PERM"]):
         yield {"kind": "perm", "quals": {key: vals for key, vals in zip(rng.sample(S.ASCII_KEYS + S.UNI_KEYS, 4),
-                                                                       [[rng.choice(S.LOOKALIKES) for _ in range(rng.randint(2, 4))] for _ in range(4)])},
-               "types": rng.sample(["promoter", "enhancer", "site", "binding", "repeat", "CpG", "TATA_box", "misc", "基因", "naïve"], 4),
+                                                                       [[rng.choice(S.LOOKALIKES) for _ in range(rng.randint(2, 4))] + (S.twin_values(rng) if j < 2 else []) for j in range(4)])},
+               "types": rng.sample(rng.choice(S.TWIN_FAMILIES), 3) + [rng.choice(["enhancer", "site", "基因", "naïve"])],
                "strand": rng.choice("+-")}
     seeds = HASHSEEDS[:sc["NSEEDS"]]
     idx = 0
